@@ -1085,7 +1085,10 @@ class Interp(object):
 
     def ev_IfExp(self, node, env):
         t = self.cond(node.test, env)
-        return self.ev(node.body if t is True else node.orelse, env)
+        v = self.ev(node.body if t is True else node.orelse, env)
+        if isinstance(v, BoolTyped) and not (self.stype(node.body) == 'bool' and self.stype(node.orelse) == 'bool'):
+            return int(v)                    # coerce_types(bool, int) is int: only an all-bool conditional stays bool
+        return v
 
     def ev_BinOp(self, node, env):
         a, b = self.ev(node.left, env), self.ev(node.right, env)
@@ -1105,6 +1108,8 @@ class Interp(object):
         if isinstance(a, Decimal) and isinstance(b, float) or isinstance(a, float) and isinstance(b, Decimal):
             raise NoReference('Decimal with float')
         ext = node is not None and self.is_external(node)
+        if isinstance(a, (bool, BoolTyped)) and isinstance(b, (bool, BoolTyped)) and opn in ('Div', 'FloorDiv', 'Mod', 'Pow') and not ext:
+            raise Unsupported('division of booleans')
         if isinstance(a, (bool, BoolTyped)) and isinstance(b, (bool, BoolTyped)) and opn in ('Add', 'Sub', 'Mult') and not ext:
             return BoolTyped({'Add': int(a) + int(b), 'Sub': int(a) - int(b), 'Mult': int(a) * int(b)}[opn])
         try:
@@ -1200,7 +1205,7 @@ class Interp(object):
                 if not nn and a is None:
                     self.sites.add('notin_subquery_nulls')
                     if 'notin_subquery_nulls' in self.dev: return True
-            r = self.contains(a, b, rnode)
+            r = self.contains(a, b, rnode, ignore_none=(opn == 'NotIn'))
             return r if opn == 'In' else self.t_not(r)
         if a is U or b is U: raise Unsupported('comparison of UNKNOWN')
         if opn in ('Eq', 'NotEq') and ((lnode is not None and self.is_none_literal(lnode)) or
@@ -1221,7 +1226,8 @@ class Interp(object):
             if opn == 'NotEq': return a is not b
             raise NoReference('entity ordering')
         ta, tb = isinstance(a, DecText), isinstance(b, DecText)
-        if (ta or tb) and isinstance(a, NUM) and isinstance(b, NUM):
+        if (ta or tb) and isinstance(a, NUM) and isinstance(b, NUM) and not (
+                lnode is not None and rnode is not None and self.is_external(lnode) and self.is_external(rnode)):   # python folds it
             # a TEXT-bound Decimal compared with something without column affinity: sqlite orders number < text,
             # and compares two texts as strings
             if ta and tb:
@@ -1261,7 +1267,7 @@ class Interp(object):
         except TypeError: raise NoReference('comparison type error')
         raise Unsupported('cmp op ' + opn)
 
-    def contains(self, x, coll, rnode=None):
+    def contains(self, x, coll, rnode=None, ignore_none=False):
         if coll is U or x is U: raise Unsupported('in with UNKNOWN')
         if isinstance(coll, str) or (coll is None and not isinstance(x, (MObj, tuple)) and (x is None or isinstance(x, str))):
             if x is None or coll is None: return self.amb()
@@ -1279,8 +1285,8 @@ class Interp(object):
             r = self.compare(ast.Eq(), x, it)
             if r is True: return True
             if r is U: saw_none = True
-        if saw_none and not subq: return self.amb()      # literal/parameter list containing None: IN (.., NULL) is unknown in SQL
-        return False                                     # subquery / collection: a missing element is simply not x
+        if saw_none and not (subq and ignore_none): return self.amb()    # IN (.., NULL) is unknown in SQL, False in python
+        return False                        # x NOT IN (subquery): pony filters missing elements out, as python's != does
 
     def ev_Subscript(self, node, env):
         s = self.ev(node.value, env)
@@ -1518,8 +1524,9 @@ class Interp(object):
             if isinstance(vals[0], (bool, BoolTyped)): return BoolTyped(abs(int(vals[0])))
             return abs(vals[0])
         if name == 'coalesce':
+            allbool = all(self.stype(a) == 'bool' for a in args)
             for v in vals:
-                if v is not None: return v
+                if v is not None: return int(v) if isinstance(v, BoolTyped) and not allbool else v
             return None
         if name == 'concat':
             out = []
@@ -1851,7 +1858,9 @@ def eval_aggregated(it, tree):
             if not inc: continue
             if it.optref_drop(tree, level_vars, env): continue
             it.row_flag = False
-            key = tuple(canon(it.ev(elts[i], env)) for i in key_idx)
+            kv = [it.ev(elts[i], env) for i in key_idx]
+            if any(isinstance(v, DecText) for v in kv): it.sites.add('dec_param_text')
+            key = tuple(('$text', str(v)) if isinstance(v, DecText) and 'dec_param_text' in it.dev else canon(v) for v in kv)
             if it.row_flag: uncertain[0] = True
             groups.setdefault(key, []).append(env)
         if not key_idx and not groups: groups[()] = []
@@ -2414,6 +2423,17 @@ def judge(env, program, dev_rules=None, result=None, shape_rules=None):
     return Verdict('disagree', program, result, rr, detail)
 
 
+def _fold_neg(node):
+    class F(ast.NodeTransformer):
+        def visit_UnaryOp(self, n):
+            n = self.generic_visit(n)
+            if isinstance(n.op, ast.USub) and isinstance(n.operand, ast.Constant) and isinstance(n.operand.value, (int, float)) \
+                    and not isinstance(n.operand.value, bool):
+                return ast.copy_location(ast.Constant(-n.operand.value), n)
+            return n
+    return ast.fix_missing_locations(F().visit(node))
+
+
 def lint_program(src):
     """None if fine, else the reason the draft is not worth running."""
     tree = parse_src(src)
@@ -2435,6 +2455,18 @@ def lint_program(src):
         if recv is not None and varfree(recv) and not isinstance(recv, (ast.Name, ast.Constant, ast.Attribute)):
             return 'compound constant receiver'
         if isinstance(n, ast.IfExp) and varfree(n): return 'constant conditional expression'
+        if isinstance(n, (ast.BinOp, ast.UnaryOp, ast.Compare, ast.BoolOp, ast.Call, ast.Subscript)) and varfree(n) \
+                and not any(isinstance(x, (ast.GeneratorExp, ast.Lambda)) for x in ast.walk(n)):
+            # pony evaluates a variable-free expression from the text ast2src() renders: it must parse back to the same tree
+            try:
+                from pony.orm.asttranslation import ast2src
+                back = ast.parse(ast2src(copy.deepcopy(n)), mode='eval').body
+                if ast.dump(back) != ast.dump(n): return 'constant sub-expression does not survive ast2src (C04)'
+                # generator/lambda form: the compiler folds -1 into one constant, which ast2src prints without parentheses
+                folded = _fold_neg(copy.deepcopy(n))
+                back = _fold_neg(ast.parse(ast2src(copy.deepcopy(folded)), mode='eval').body)
+                if ast.dump(back) != ast.dump(folded): return 'constant sub-expression does not survive ast2src after folding (C04)'
+            except Exception: return 'constant sub-expression not renderable by ast2src (C04)'
         conds = []
         if isinstance(n, ast.BoolOp): conds = n.values
         elif isinstance(n, ast.UnaryOp) and isinstance(n.op, ast.Not): conds = [n.operand]
@@ -2907,10 +2939,10 @@ class ProgramGen(object):
         """Random program; drafts whose constant sub-expressions python would fold in an uninteresting or
         pony-specific way (aggregates/projections of variable-free expressions, compound constant receivers that
         pony re-renders through ast2src -- property C04) are re-drawn."""
-        for _ in range(8):
+        for _ in range(40):
             p = self._program(shape)
             if lint_program(p.src) is None: return p
-        return p
+        return self._program('filter' if shape is None else shape) if False else Program('p for p in Person', {}, 'gen', [], {'ent': 'Person', 'var': 'p', 'cond': None}, ['shape.filter'], self.schema.name)
 
     def _program(self, shape=None):
         self.reset()
